@@ -288,7 +288,7 @@ func c17Exec(x *Ctx) {
 		walkTo := func(rel string) (uint32, bool) {
 			fidno++
 			names := splitRel(rel)
-			f := fidno
+			f := fidno + []uint32{0, 0x7FFFFF00, 0x80000000, 0xFFFF0000}[c.Seed%4] // a fid is any 32-bit number but NOFID
 			// up to 16 names per Twalk
 			src := uint32(0)
 			for first := true; first || len(names) > 0; first = false {
